@@ -67,6 +67,8 @@ type sessCall struct {
 	Name    string
 	Models  []apiBulk // bulkWrite
 	Partial bson.D    // createIndex inside idxabort only (the model never sees it)
+	Proj    bson.D    // findOneAnd*: projection of the returned document
+	HasProj bool
 }
 
 func (c *sessCall) isWrite() bool {
@@ -96,6 +98,11 @@ func (c *sessCall) fields() string {
 			sb.WriteString(`,"sort":` + vj.Enc(c.Sort))
 		}
 	}
+	projOpt := func() {
+		if c.HasProj {
+			sb.WriteString(`,"proj":` + vj.Enc(c.Proj))
+		}
+	}
 	switch c.M {
 	case "insertOne":
 		sb.WriteString(`,"doc":` + vj.Enc(c.Doc))
@@ -122,6 +129,11 @@ func (c *sessCall) fields() string {
 	case "findOneAndUpdate":
 		sb.WriteString(`,"q":` + vj.Enc(c.Q) + `,"u":` + vj.Enc(c.U) + `,"upsert":` + strconv.FormatBool(c.Upsert) + `,"after":` + strconv.FormatBool(c.After))
 		sortOpt()
+		projOpt()
+	case "findOneAndReplace":
+		sb.WriteString(`,"q":` + vj.Enc(c.Q) + `,"repl":` + vj.Enc(c.Repl) + `,"upsert":` + strconv.FormatBool(c.Upsert) + `,"after":` + strconv.FormatBool(c.After))
+		sortOpt()
+		projOpt()
 	case "createIndex":
 		sb.WriteString(`,"keys":` + vj.Enc(c.Keys) + `,"unique":` + strconv.FormatBool(c.Unique) + `,"expiry":0`)
 		if c.Partial != nil {
@@ -130,6 +142,7 @@ func (c *sessCall) fields() string {
 	case "findOneAndDelete":
 		sb.WriteString(`,"q":` + vj.Enc(c.Q))
 		sortOpt()
+		projOpt()
 	case "dropIndex":
 		sb.WriteString(`,"name":` + run.JS(c.Name))
 	case "bulkWrite":
@@ -243,15 +256,16 @@ type sessRunner struct {
 	seenOids map[primitive.ObjectID]bool
 	// committed dump after the previous step, and the per-collection documents when the open
 	// transaction started
-	committed string
-	openDocs  map[string]string
-	blocked   int // number of calls that waited for the slot (they cost sessWait each)
-	dead      bool
-	nstep     int
-	hk        string // history key (harness-only request field)
-	txnFailed int    // failed / successful write statements of the open transaction
-	txnWrote  int
-	reported  map[string]bool // index issues already reported in this history
+	committed   string
+	openDocs    map[string]string
+	blocked     int // number of calls that waited for the slot (they cost sessWait each)
+	dead        bool
+	nstep       int
+	hk          string // history key (harness-only request field)
+	txnFailed   int    // failed / successful write statements of the open transaction
+	txnWrote    int
+	txnLateProj int             // find-and-modify statements of the open transaction whose projection failed
+	reported    map[string]bool // index issues already reported in this history
 }
 
 func newSessRunner(nSess int) (*sessRunner, error) {
@@ -414,7 +428,22 @@ func (m *sessRunner) exec(ctx context.Context, c *sessCall) (reply string, panic
 		if c.HasSort {
 			o.SetSort(c.Sort)
 		}
+		if c.HasProj {
+			o.SetProjection(c.Proj)
+		}
 		return sessSingleReply(coll.FindOneAndUpdate(ctx, c.Q, c.U, o)), ""
+	case "findOneAndReplace":
+		o := options.FindOneAndReplace().SetUpsert(c.Upsert)
+		if c.After {
+			o.SetReturnDocument(options.After)
+		}
+		if c.HasSort {
+			o.SetSort(c.Sort)
+		}
+		if c.HasProj {
+			o.SetProjection(c.Proj)
+		}
+		return sessSingleReply(coll.FindOneAndReplace(ctx, c.Q, c.Repl, o)), ""
 	case "bulkWrite":
 		var models []mongo.WriteModel
 		for i := range c.Models {
@@ -465,6 +494,9 @@ func (m *sessRunner) exec(ctx context.Context, c *sessCall) (reply string, panic
 		o := options.FindOneAndDelete()
 		if c.HasSort {
 			o.SetSort(c.Sort)
+		}
+		if c.HasProj {
+			o.SetProjection(c.Proj)
 		}
 		return sessSingleReply(coll.FindOneAndDelete(ctx, c.Q, o)), ""
 	case "listIndexes":
@@ -749,6 +781,10 @@ func (m *sessRunner) step(st *sessStep, h *sessHist) sessOut {
 		if !sessIsOK(reply) && reply != sessBlockedReply {
 			m.txnFailed++
 			tags = append(tags, "txn-statement-failed")
+			if st.C.HasProj && isLateFailing(st.C.Proj) {
+				m.txnLateProj++
+				tags = append(tags, "txn-projection-failed:"+st.C.M)
+			}
 			if now := sessDumpOpt(cur, true); now != viewDeep {
 				viol("C02", "a failed statement inside a transaction changed the transaction's view", "failed-statement-leaked", "reply "+reply+"\nbefore "+viewDeep+"\nafter  "+now)
 			}
@@ -776,11 +812,14 @@ func (m *sessRunner) step(st *sessStep, h *sessHist) sessOut {
 			if m.txnFailed > 0 && m.txnWrote > 0 {
 				tags = append(tags, "commit-after-failed-statement")
 			}
+			if m.txnLateProj > 0 {
+				tags = append(tags, "commit-after-failed-projection")
+			}
 			m.coherent(postCat, "the committed catalog after commit", viol)
 			m.uniqueOK(postCat, viol)
 		}
 		if postHolder < 0 {
-			m.txnFailed, m.txnWrote = 0, 0
+			m.txnFailed, m.txnWrote, m.txnLateProj = 0, 0, 0
 		}
 	}
 	switch {
@@ -995,6 +1034,10 @@ func (m *sessRunner) coherent(cat *lungo.Catalog, where string, viol func(prop, 
 				h.String()+" in "+where+": "+is.detail)
 		}
 	}
+}
+
+func isLateFailing(p bson.D) bool {
+	return len(p) == 1 && strings.Contains(vj.Enc(p), "$bogus")
 }
 
 // uniqueOK: no two documents under a unique index share a key tuple (own pairwise scan, api_run.go).
